@@ -55,6 +55,8 @@ def check(case, ctx):
         ctx.violation("valid_allocation_rejected", f"constructor raised {type(a).__name__}: {str(a)[:300]} on {al['cells']}")
         return
     scale = max(al["ext"])
+    if not au.loaded_matches_document(ctx, a if "a0" not in dir() else a0, al):
+        return
     ctx.count("layout:" + al["layout"])
     xs = {c["r"][0] - c["r"][2] / 2 for c in al["cells"]} | {c["r"][0] + c["r"][2] / 2 for c in al["cells"]}
     ys = {c["r"][1] - c["r"][3] / 2 for c in al["cells"]} | {c["r"][1] + c["r"][3] / 2 for c in al["cells"]}
